@@ -215,6 +215,12 @@ LAYOUT_SCHEMAS = [
     ("same-line", "A0: defb 0xA0 NOP MV A, 0x9A01\nA1: defb 0xA1 MV BA, 0x1234 RET\nA2: defb 0xA2\n", {"A0": 0xA0, "A1": 0xA1, "A2": 0xA2}),
     ("data-mix", "A1: defb 0xA1\n defs 3\nA2: defb 0xA2\n defm \"xyz\"\nA3: defb 0xA3\n defl 0x9A01, 7\nA4: defb 0xA4\n", {"A1": 0xA1, "A2": 0xA2, "A3": 0xA3, "A4": 0xA4}),
     ("bss-silent", "SECTION data\nD1: defb 0xA1, 0xA6\nSECTION bss\nB1: defs 4\nB2: defs 2\nSECTION code\nC1: defb 0xA3\n", {"D1": 0xA1, "C1": 0xA3}),
+    # same opcode, same operand classes, different encoded length (with and without a displacement), in both orders
+    ("same-opcode-lengths", " MV A, [X]\n MV A, [X+0x05]\nA1: defb 0xA1\n MV [Y-0x03], A\n MV [Y], A\nA2: defb 0xA2\n MV A, [(0x10)]\n MV A, [(0x10)+0x02]\nA3: defb 0xA3\n", {"A1": 0xA1, "A2": 0xA2, "A3": 0xA3}),
+    # code placed with .ORG above the default .bss base while .data and .bss exist
+    ("high-org", "SECTION data\nD1: defb 0xA2\nSECTION bss\nB1: defs 2\nSECTION code\n.ORG 0xC0000\nH1: defb 0xA1\n MV X, H1\nH2: defb 0xA4\n", {"D1": 0xA2, "H1": 0xA1, "H2": 0xA4}),
+    # a section name the assembler does not know: rejecting the program is fine, laying it out inconsistently is not
+    ("may-reject:custom-section", "SECTION data\nD1: defb 0xA1\nSECTION bss\nB1: defs 4\nSECTION extra\nX1: defb 0xA5\nX2: defb 0xA6\nSECTION code\nC1: defb 0xA3\n", {"D1": 0xA1, "X1": 0xA5, "X2": 0xA6, "C1": 0xA3}),
 ]
 
 
@@ -229,6 +235,8 @@ def layout_witness(job: tuple) -> list[dict]:
     if r["status"] == "unknown":
         return [{"schema": name, "verdict": "unknown", "detail": r["exc"]}]
     if r["status"] != "ok":
+        if name.startswith("may-reject:"):
+            return [{"schema": name, "verdict": "ok", "detail": f"rejected as a whole ({r['exc']})"}]
         return [{"schema": name, "verdict": "layout", "detail": f"schema program is rejected: {r['exc']}: {r['msg'][:120]}"}]
     out = []
     for lbl, mark in marks.items():
@@ -533,7 +541,7 @@ def passes(ctx: Ctx, py: PyProgram) -> None:
     gtext = (REPO / GRAMMAR).read_text()
     m = re.search(r"^line\s*:\s*(.+)$", gtext, re.M)
     ctx.extra["grammar_line_rule"] = m.group(1).strip() if m else None
-    ctx.instance("C10.4/passes", "sibling agreement of the pass loops: traversal, location handling before the address read, first_pass branches assign the same values, increments, hand-off key == statement index", n, 8)
+    ctx.instance("C10.4/passes", "sibling agreement of the pass loops: traversal, location handling before the address read, first_pass branches assign the same values, increments, hand-off key == statement index", n, 6)
 
 
 def _resolve_in_loop(loop: ast.For, e: ast.AST) -> str:
